@@ -2,7 +2,7 @@
    Directives used: ExtrOcamlBasic (bool, option, unit, prod, list, sumbool -> OCaml natives)
    and ExtrOcamlString (ascii -> char, string -> char list). nat, N, Z stay Coq datatypes. *)
 From Coq Require Import Extraction ExtrOcamlBasic ExtrOcamlString.
-From RG Require Import Base.Value Pure.CanCall Pure.Rid Pure.Pattern Pure.Lcs Pure.LcsTab Pure.ModelDiff Comp.ResSub Pure.PatternParse Pure.RidPart Pure.Status Pure.Origin Pure.HttpPath Pure.Header Comp.Throttle Spec.Trace Spec.Client Spec.Monitors Spec.AccessMon Pure.Access Pure.Render Comp.Adapter Comp.Lifecycle Comp.EsQueue Pure.Subjects Comp.Gc Spec.HttpMon Comp.SubFsm Comp.CoreKv Pure.ValueDec.
+From RG Require Import Base.Value Pure.CanCall Pure.Rid Pure.Pattern Pure.Lcs Pure.LcsTab Pure.ModelDiff Comp.ResSub Pure.PatternParse Pure.RidPart Pure.Status Pure.Origin Pure.HttpPath Pure.Header Comp.Throttle Spec.Trace Spec.Client Spec.Monitors Spec.AccessMon Pure.Access Pure.Render Comp.Adapter Comp.Lifecycle Comp.EsQueue Pure.Subjects Comp.Gc Spec.HttpMon Comp.SubFsm Comp.CoreKv Pure.ValueDec Pure.RespDec.
 Set Extraction Optimize.
 Separate Extraction
   CanCall.can_call CanCall.entries
@@ -29,4 +29,5 @@ Separate Extraction
   HttpMon.hmonitor
   SubFsm.step SubFsm.init SubFsm.sst_num SubFsm.can_get
   CoreKv.kstep CoreKv.kinit CoreKv.ktruth
-  ValueDec.decode.
+  ValueDec.decode
+  RespDec.decode_get RespDec.decode_call.
